@@ -82,21 +82,44 @@ contract(M, 'pda_to_one_accepting_state_in_place', {'P': 'PDA'}, returns='None',
          theories=['naming', 'word', 'pda', 'pdax'], props=['C10'],
          note='exact structure of the in-place construction; the language statement (asserts) follows by lemmas one-acc-eclo / one-acc-sim / one-acc-lang: configurations of the new automaton are those of the old one plus (q_accept, s) for every reachable accepting (q, s)')
 
-# ---------------------------------------------------------------------------------------------- C02: bounded enumeration of a PDA (soundness for every closure limit)
+# ---------------------------------------------------------------------------------------------- C02: bounded enumeration of a PDA
+# sound for every closure limit; exact when no closure computation hits the limit (_PSMALL: the initial closure and the closure of the
+# a-successors of every configuration reachable by a word shorter than n have at most closure_limit() elements)
 _PWS = 'all(implies(v in lookup(W, c), wlen(v) == %s and over(P.Sigma, v) and c in reachP(P, v)) for c in configs() for v in allwords())'
 _PRS = 'all(implies(v in result, wlen(v) <= %s and over(P.Sigma, v) and pda_accepts(P, v)) for v in allwords())'
 _PW1 = 'all(implies(v in lookup(W1, c), wlen(v) == i + 1 and over(P.Sigma, v) and c in reachP(P, v)) for c in configs() for v in allwords())'
-_PCOM = ['F == P.F', 'Sigma == P.Sigma', '0 <= i and i < n', _PWS % 'i', _PW1, _PRS % 'i + 1']
+_ONE = 'EcloP(P, stepsetP(P, {%s}, %s))'
+_PSMALL = ('(fin(reachP(P, nil())) and card(reachP(P, nil())) <= closure_limit() and all(implies(wlen(u) < n and over(P.Sigma, u) and r0 in reachP(P, u) and b in P.Sigma, '
+           'fin(%s) and card(%s) <= closure_limit()) for u in allwords() for r0 in configs() for b in atoms()))' % (_ONE % ('r0', 'b'), _ONE % ('r0', 'b')))
+_PWC = 'implies(%s, all(implies(wlen(v) == %%s and over(P.Sigma, v) and c in reachP(P, v), v in lookup(W, c)) for c in configs() for v in allwords()))' % _PSMALL
+_PRC = 'implies(%s, all(implies(wlen(v) <= %%s and over(P.Sigma, v) and pda_accepts(P, v), v in result) for v in allwords()))' % _PSMALL
+def _PDONE(proc):      # completeness of the round so far: every processed (configuration, letter, successor) has contributed its words
+    return ('implies(%s, all(implies(%s and v in lookup(W, r0) and b in P.Sigma and c in %s, snoc(v, b) in lookup(W1, c) and implies(c.q in P.F, snoc(v, b) in result)) '
+            'for r0 in configs() for b in atoms() for c in configs() for v in allwords()))' % (_PSMALL, proc, _ONE % ('r0', 'b')))
+_PP3 = 'r0 in doneK'
+_PP4 = '(r0 in doneK or (r0 == r and b in doneA))'
+_PP5 = '(r0 in doneK or (r0 == r and (b in doneA or (b == a and c in doneC))))'
+_PCOM = ['F == P.F', 'Sigma == P.Sigma', '0 <= i and i < n', _PWS % 'i', _PW1, _PRS % 'i + 1', _PWC % 'i', _PRC % 'i']
 contract(M, 'pda_words_up_to_n', {'P': 'PDA', 'n': 'Int'}, returns='Set[Word]', requires=['n >= 0'],
-         ensures=[_PRS % 'n'],
+         ensures=[_PRS % 'n', _PRC % 'n'],
          types={'W': 'Map[PDAState,Set[Word],default=set]', 'W1': 'Map[PDAState,Set[Word],default=set]', 'result': 'Set[Word]', 'R': SC, 'words_plus_a': 'Set[Word]'},
-         loops={1: {'ghost': 'doneR', 'invariant': ['F == P.F', 'Sigma == P.Sigma', 'R <= reachP(P, nil())', _PWS % '0', _PRS % '0']},
-                2: {'invariant': ['F == P.F', 'Sigma == P.Sigma', '0 <= i and i <= n', _PWS % 'i', _PRS % 'i']},
-                3: {'ghost': 'doneK', 'invariant': _PCOM},
-                4: {'ghost': 'doneA', 'invariant': _PCOM + ['r in W', 'words == lookup(W, r)']},
+         loops={1: {'ghost': 'doneR', 'invariant': ['F == P.F', 'Sigma == P.Sigma', 'R <= reachP(P, nil())', 'implies(%s, R == reachP(P, nil()))' % _PSMALL, _PWS % '0', _PRS % '0',
+                                                   'all(implies(c in doneR, nil() in lookup(W, c) and implies(c.q in P.F, nil() in result)) for c in configs())']},
+                2: {'invariant': ['F == P.F', 'Sigma == P.Sigma', '0 <= i and i <= n', _PWS % 'i', _PRS % 'i', _PWC % 'i', _PRC % 'i']},
+                3: {'ghost': 'doneK', 'invariant': _PCOM + [_PDONE(_PP3)],
+                    'after': ['all(implies(v != nil(), v == snoc(init(v), last(v)) and wlen(v) == wlen(init(v)) + 1 and over(P.Sigma, v) == (over(P.Sigma, init(v)) and last(v) in P.Sigma)) for v in allwords())',
+                              'all(implies(v != nil(), (c in reachP(P, v)) == any(r0 in reachP(P, init(v)) and c in %s for r0 in configs())) for c in configs() for v in allwords())' % (_ONE % ('r0', 'last(v)')),
+                              (_PWC % 'i + 1').replace('lookup(W, c)', 'lookup(W1, c)'),
+                              'implies(%s, all(implies(wlen(v) == i + 1 and over(P.Sigma, v) and pda_accepts(P, v), v in result) for v in allwords()))' % _PSMALL,
+                              _PRC % 'i + 1']},
+                4: {'ghost': 'doneA', 'invariant': _PCOM + ['r in W', 'words == lookup(W, r)', _PDONE(_PP4)]},
                 5: {'ghost': 'doneC', 'invariant': _PCOM + ['r in W', 'words == lookup(W, r)', 'a in P.Sigma',
                                                          'all(wlen(v) == i + 1 and over(P.Sigma, v) for v in words_plus_a)',
-                                                         'all(implies(v in words_plus_a, c in reachP(P, v)) for c in R for v in allwords())']}},
-         theories=['word', 'wordx', 'pda'], props=['C02', 'C19'],
-         note='soundness for every closure limit: every enumerated word has length at most n, is over Sigma and is accepted (W[c] only holds words after which c is reachable); '
-              'exactness below the limit is checked by the bounded stand-in')
+                                                         'all((v in words_plus_a) == (v != nil() and last(v) == a and init(v) in words) for v in allwords())',
+                                                         'all(implies(v in words_plus_a, c in reachP(P, v)) for c in R for v in allwords())',
+                                                         'R <= %s' % (_ONE % ('r', 'a')),
+                                                         'implies(%s and any(v in words for v in allwords()), R == %s)' % (_PSMALL, _ONE % ('r', 'a')),
+                                                         _PDONE(_PP5)]}},
+         theories=['word', 'wordx', 'pda', 'pdax'], props=['C02', 'C19'],
+         note='W[c] only holds words after which configuration c is reachable (soundness, every limit); when no closure computation hits the limit it holds all of them '
+              '(lemma reachP-step-pw: the configurations after w.a are the closures of the a-successors of the configurations after w, one configuration at a time)')
